@@ -122,3 +122,36 @@ Proof.
         rewrite Hr in Hlen'. cbn in Hlen'. lia. }
   apply (Hgen out []); [exact Hret|exact Hint'|cbn; lia].
 Qed.
+
+(* ---------------------------------------------------------------- developer fields *)
+Definition desc_of (vs : vstate) (d : devfield) : option fdesc := find_fdesc (v_fdescs vs) (df_idx d) (df_num d).
+Definition retained_devs (preserve : bool) (vs : vstate) (ds : list devfield) : list devfield :=
+  flat_map (fun d => match desc_of vs d with
+                     | Some fd => let d' := restore_dev d fd in if preserve || valid (df_value d') (fdx_base fd) then [d'] else []
+                     | None => [] end) ds.
+Definition dev_declared (vs : vstate) (d : devfield) : Prop := existsb (N.eqb (df_idx d)) (v_devidx vs) = true /\ desc_of vs d <> None.
+(* frame: accepted developer fields all belong to a declared developer data index and have a field description; the result is
+   exactly the restored fields whose value is valid under the description's base type (or all of them when preserving), in
+   order; each passes the integrity test against the description's base type; at most 255 *)
+Lemma validate_devs_spec preserve vs : forall ds kept out, validate_devs preserve vs ds kept = Ok out ->
+  out = kept ++ retained_devs preserve vs ds /\ Forall (dev_declared vs) ds /\ (length kept <= 255 -> length out <= 255)%nat.
+Proof.
+  induction ds as [|d ds IH]; intros kept out H; cbn [validate_devs] in H.
+  - injection H as <-. cbn. rewrite app_nil_r. auto.
+  - destruct (negb (existsb (N.eqb (df_idx d)) (v_devidx vs))) eqn:Ei; [discriminate|]. apply negb_false_iff in Ei.
+    cbn [retained_devs flat_map]. unfold desc_of at 1. destruct (find_fdesc (v_fdescs vs) (df_idx d) (df_num d)) as [fd|] eqn:Ef; [|discriminate].
+    assert (Hdecl : dev_declared vs d) by (split; [exact Ei|unfold desc_of; rewrite Ef; discriminate]).
+    cbv zeta.
+    assert (Hg : negb preserve && negb (valid (df_value (restore_dev d fd)) (fdx_base fd)) = negb (preserve || valid (df_value (restore_dev d fd)) (fdx_base fd)))
+      by (destruct preserve, (valid _ _); reflexivity).
+    rewrite Hg in H. destruct (preserve || valid (df_value (restore_dev d fd)) (fdx_base fd)); cbn [negb] in H.
+    + unfold bind in H. destruct (value_integrity_cases (df_value (restore_dev d fd)) (fdx_base fd)) as [[e He]|He]; rewrite He in H; [discriminate|].
+      destruct (len kept =? 255) eqn:E255; [discriminate|].
+      apply IH in H. destruct H as (-> & Hd & Hlen). split; [rewrite <- app_assoc; reflexivity|]. split; [constructor; assumption|].
+      intros Hk0. apply Hlen. rewrite app_length. cbn [length]. unfold len in E255. lia.
+    + apply IH in H. destruct H as (-> & Hd & Hlen). split; [reflexivity|]. split; [constructor; assumption|exact Hlen].
+Qed.
+
+Theorem validate_devs_frame preserve vs ds out : validate_devs preserve vs ds [] = Ok out ->
+  out = retained_devs preserve vs ds /\ Forall (dev_declared vs) ds /\ (length out <= 255)%nat.
+Proof. intros H. apply validate_devs_spec in H. destruct H as (-> & Hd & Hl). split; [reflexivity|]. split; [exact Hd|apply Hl; cbn; lia]. Qed.
